@@ -6,7 +6,10 @@ use crate::mon;
 
 pub struct Prop {
     pub id: &'static str,
-    pub gen: fn(bool) -> Vec<Scenario>,
+    pub gen: fn(u8) -> Vec<Scenario>,
+    /// grammar size used by the quick / thorough tier (0 small, 1 medium, 2 large)
+    pub quick_level: u8,
+    pub thorough_level: u8,
     pub monitor: fn(&Scenario, &[Ev]) -> Vec<Violation>,
     /// deviation bound per tier (None = whole tree)
     pub bound_quick: Option<u32>,
@@ -17,26 +20,63 @@ pub struct Prop {
     pub features: &'static str,
 }
 
+const QL_C01: u8 = 0;
+const TL_C01: u8 = 2;
+const QL_C02: u8 = 0;
+const TL_C02: u8 = 2;
+const QL_C03: u8 = 0;
+const TL_C03: u8 = 1;
+const QL_C04: u8 = 1;
+const TL_C04: u8 = 2;
+const QL_C05: u8 = 1;
+const TL_C05: u8 = 2;
+const QL_C06: u8 = 1;
+const TL_C06: u8 = 2;
+const QL_C07: u8 = 0;
+const TL_C07: u8 = 1;
+const QL_C08: u8 = 1;
+const TL_C08: u8 = 2;
+const QL_C09: u8 = 1;
+const TL_C09: u8 = 2;
+const QL_C10: u8 = 1;
+const TL_C10: u8 = 2;
+const QL_C11: u8 = 1;
+const TL_C11: u8 = 2;
+const QL_C12: u8 = 0;
+const TL_C12: u8 = 1;
+const QL_C13: u8 = 1;
+const TL_C13: u8 = 2;
+const QL_C14: u8 = 0;
+const TL_C14: u8 = 1;
+const QL_C15: u8 = 0;
+const TL_C15: u8 = 1;
+const QL_C18: u8 = 0;
+const TL_C18: u8 = 0;
+const QL_C19: u8 = 0;
+const TL_C19: u8 = 1;
+const QL_C20: u8 = 0;
+const TL_C20: u8 = 1;
+
 pub fn all() -> Vec<Prop> {
     vec![
-        Prop { id: "C01", gen: gen_c01, monitor: mon::c01, bound_quick: Some(2), bound_thorough: Some(3), max_execs_quick: 20_000, max_execs_thorough: 400_000, features: "" },
-        Prop { id: "C02", gen: gen_c02, monitor: mon::c02, bound_quick: Some(2), bound_thorough: Some(3), max_execs_quick: 20_000, max_execs_thorough: 400_000, features: "" },
-        Prop { id: "C03", gen: gen_c03, monitor: mon::c03, bound_quick: Some(2), bound_thorough: Some(3), max_execs_quick: 20_000, max_execs_thorough: 400_000, features: "" },
-        Prop { id: "C04", gen: gen_c04, monitor: mon::c04, bound_quick: Some(3), bound_thorough: None, max_execs_quick: 20_000, max_execs_thorough: 400_000, features: "" },
-        Prop { id: "C05", gen: gen_c04, monitor: mon::c05, bound_quick: Some(3), bound_thorough: None, max_execs_quick: 20_000, max_execs_thorough: 400_000, features: "" },
-        Prop { id: "C06", gen: gen_c06, monitor: mon::c06, bound_quick: Some(2), bound_thorough: None, max_execs_quick: 20_000, max_execs_thorough: 400_000, features: "" },
-        Prop { id: "C07", gen: gen_c07, monitor: mon::c07, bound_quick: Some(2), bound_thorough: Some(3), max_execs_quick: 20_000, max_execs_thorough: 400_000, features: "" },
-        Prop { id: "C08", gen: gen_c08, monitor: mon::c08, bound_quick: Some(3), bound_thorough: None, max_execs_quick: 20_000, max_execs_thorough: 400_000, features: "" },
-        Prop { id: "C09", gen: gen_c09, monitor: mon::c09, bound_quick: Some(2), bound_thorough: Some(3), max_execs_quick: 20_000, max_execs_thorough: 400_000, features: "" },
-        Prop { id: "C10", gen: gen_c10, monitor: mon::c10, bound_quick: None, bound_thorough: None, max_execs_quick: 20_000, max_execs_thorough: 400_000, features: "" },
-        Prop { id: "C11", gen: gen_c11, monitor: mon::c11, bound_quick: Some(2), bound_thorough: Some(3), max_execs_quick: 20_000, max_execs_thorough: 400_000, features: "" },
-        Prop { id: "C14", gen: gen_c14, monitor: mon::c14, bound_quick: Some(3), bound_thorough: None, max_execs_quick: 20_000, max_execs_thorough: 400_000, features: "f_deadlock" },
-        Prop { id: "C15", gen: gen_c15, monitor: mon::c15, bound_quick: Some(3), bound_thorough: None, max_execs_quick: 20_000, max_execs_thorough: 400_000, features: "f_deadlock" },
-        Prop { id: "C20", gen: gen_c20, monitor: mon::c20, bound_quick: Some(2), bound_thorough: Some(3), max_execs_quick: 5_000, max_execs_thorough: 100_000, features: "f_metrics" },
-        Prop { id: "C18", gen: gen_c18, monitor: mon::none, bound_quick: Some(2), bound_thorough: Some(2), max_execs_quick: 3_000, max_execs_thorough: 3_000, features: "" },
-        Prop { id: "C12", gen: gen_c12, monitor: mon::c12, bound_quick: Some(2), bound_thorough: Some(3), max_execs_quick: 10_000, max_execs_thorough: 200_000, features: "f_deadlock,f_metrics,f_testutils,f_tracing" },
-        Prop { id: "C19", gen: gen_c19, monitor: mon::c19rt, bound_quick: Some(2), bound_thorough: Some(3), max_execs_quick: 10_000, max_execs_thorough: 200_000, features: "" },
-        Prop { id: "C13", gen: gen_c13, monitor: mon::c13, bound_quick: Some(2), bound_thorough: Some(3), max_execs_quick: 20_000, max_execs_thorough: 400_000, features: "f_testutils" },
+        Prop { id: "C01", gen: gen_c01, monitor: mon::c01, quick_level: QL_C01, thorough_level: TL_C01, bound_quick: None, bound_thorough: None, max_execs_quick: 50_000, max_execs_thorough: 1_000_000, features: "" },
+        Prop { id: "C02", gen: gen_c02, monitor: mon::c02, quick_level: QL_C02, thorough_level: TL_C02, bound_quick: None, bound_thorough: None, max_execs_quick: 50_000, max_execs_thorough: 1_000_000, features: "" },
+        Prop { id: "C03", gen: gen_c03, monitor: mon::c03, quick_level: QL_C03, thorough_level: TL_C03, bound_quick: None, bound_thorough: None, max_execs_quick: 50_000, max_execs_thorough: 1_000_000, features: "" },
+        Prop { id: "C04", gen: gen_c04, monitor: mon::c04, quick_level: QL_C04, thorough_level: TL_C04, bound_quick: None, bound_thorough: None, max_execs_quick: 50_000, max_execs_thorough: 1_000_000, features: "" },
+        Prop { id: "C05", gen: gen_c04, monitor: mon::c05, quick_level: QL_C05, thorough_level: TL_C05, bound_quick: None, bound_thorough: None, max_execs_quick: 50_000, max_execs_thorough: 1_000_000, features: "" },
+        Prop { id: "C06", gen: gen_c06, monitor: mon::c06, quick_level: QL_C06, thorough_level: TL_C06, bound_quick: None, bound_thorough: None, max_execs_quick: 50_000, max_execs_thorough: 1_000_000, features: "" },
+        Prop { id: "C07", gen: gen_c07, monitor: mon::c07, quick_level: QL_C07, thorough_level: TL_C07, bound_quick: None, bound_thorough: None, max_execs_quick: 50_000, max_execs_thorough: 1_000_000, features: "" },
+        Prop { id: "C08", gen: gen_c08, monitor: mon::c08, quick_level: QL_C08, thorough_level: TL_C08, bound_quick: None, bound_thorough: None, max_execs_quick: 50_000, max_execs_thorough: 1_000_000, features: "" },
+        Prop { id: "C09", gen: gen_c09, monitor: mon::c09, quick_level: QL_C09, thorough_level: TL_C09, bound_quick: None, bound_thorough: None, max_execs_quick: 50_000, max_execs_thorough: 1_000_000, features: "" },
+        Prop { id: "C10", gen: gen_c10, monitor: mon::c10, quick_level: QL_C10, thorough_level: TL_C10, bound_quick: None, bound_thorough: None, max_execs_quick: 50_000, max_execs_thorough: 1_000_000, features: "" },
+        Prop { id: "C11", gen: gen_c11, monitor: mon::c11, quick_level: QL_C11, thorough_level: TL_C11, bound_quick: None, bound_thorough: None, max_execs_quick: 50_000, max_execs_thorough: 1_000_000, features: "" },
+        Prop { id: "C14", gen: gen_c14, monitor: mon::c14, quick_level: QL_C14, thorough_level: TL_C14, bound_quick: None, bound_thorough: None, max_execs_quick: 50_000, max_execs_thorough: 1_000_000, features: "f_deadlock" },
+        Prop { id: "C15", gen: gen_c15, monitor: mon::c15, quick_level: QL_C15, thorough_level: TL_C15, bound_quick: None, bound_thorough: None, max_execs_quick: 50_000, max_execs_thorough: 1_000_000, features: "f_deadlock" },
+        Prop { id: "C20", gen: gen_c20, monitor: mon::c20, quick_level: QL_C20, thorough_level: TL_C20, bound_quick: Some(2), bound_thorough: None, max_execs_quick: 2_000, max_execs_thorough: 100_000, features: "f_metrics" },
+        Prop { id: "C18", gen: gen_c18, monitor: mon::none, quick_level: QL_C18, thorough_level: TL_C18, bound_quick: None, bound_thorough: None, max_execs_quick: 3_000, max_execs_thorough: 3_000, features: "" },
+        Prop { id: "C12", gen: gen_c12, monitor: mon::c12, quick_level: QL_C12, thorough_level: TL_C12, bound_quick: None, bound_thorough: None, max_execs_quick: 10_000, max_execs_thorough: 200_000, features: "f_deadlock,f_metrics,f_testutils,f_tracing" },
+        Prop { id: "C19", gen: gen_c19, monitor: mon::c19rt, quick_level: QL_C19, thorough_level: TL_C19, bound_quick: None, bound_thorough: None, max_execs_quick: 10_000, max_execs_thorough: 200_000, features: "" },
+        Prop { id: "C13", gen: gen_c13, monitor: mon::c13, quick_level: QL_C13, thorough_level: TL_C13, bound_quick: None, bound_thorough: None, max_execs_quick: 50_000, max_execs_thorough: 1_000_000, features: "f_testutils" },
     ]
 }
 
@@ -144,9 +184,11 @@ fn dop_steps(op: DOp, slow: bool, fuse_next: bool) -> Vec<Step> {
     v
 }
 
-fn delivery_scenarios(thorough: bool, tag: &str) -> Vec<Scenario> {
+fn delivery_scenarios(lvl: u8, tag: &str) -> Vec<Scenario> {
+    let thorough = lvl >= 1;
+    let xl = lvl >= 2;
     let alpha = [DOp::Tell, DOp::Ask, DOp::TellTO, DOp::AskTO, DOp::Stop, DOp::Drop];
-    let max_total = if thorough { 5 } else { 4 };
+    let max_total = if xl { 6 } else if thorough { 5 } else { 4 };
     let progs = seqs(&alpha, 3);
     let mut out = Vec::new();
     let mut n = 0;
@@ -245,12 +287,18 @@ fn uses_after_drop(p: &[DOp]) -> bool {
     }
 }
 
-fn gen_c01(thorough: bool) -> Vec<Scenario> {
-    with_fused(delivery_scenarios(thorough, "c01"))
+fn gen_c01(lvl: u8) -> Vec<Scenario> {
+    let thorough = lvl >= 1;
+    let xl = lvl >= 2;
+    let _ = xl;
+    with_fused(delivery_scenarios(lvl, "c01"))
 }
 
-fn gen_c02(thorough: bool) -> Vec<Scenario> {
-    let mut v = delivery_scenarios(thorough, "c02");
+fn gen_c02(lvl: u8) -> Vec<Scenario> {
+    let thorough = lvl >= 1;
+    let xl = lvl >= 2;
+    let _ = xl;
+    let mut v = delivery_scenarios(lvl, "c02");
     // erased routes: the same traffic through TellHandler / AskHandler boxes
     let mut ids = Ids(0);
     let p1 = Program::new(
@@ -274,7 +322,10 @@ fn gen_c02(thorough: bool) -> Vec<Scenario> {
 
 // ------------------------------------------------------------------ C03: replies and completion
 
-fn gen_c03(thorough: bool) -> Vec<Scenario> {
+fn gen_c03(lvl: u8) -> Vec<Scenario> {
+    let thorough = lvl >= 1;
+    let xl = lvl >= 2;
+    let _ = xl;
     let mut out = Vec::new();
     let mut n = 0;
     // termination causes injected while asks are queued / in flight / waiting for a slot
@@ -382,7 +433,10 @@ fn gen_c03(thorough: bool) -> Vec<Scenario> {
 
 // ------------------------------------------------------------------ C04 / C05: lifecycle
 
-fn gen_c04(thorough: bool) -> Vec<Scenario> {
+fn gen_c04(lvl: u8) -> Vec<Scenario> {
+    let thorough = lvl >= 1;
+    let xl = lvl >= 2;
+    let _ = xl;
     let mut out = Vec::new();
     let mut n = 0;
     #[derive(Clone, Copy, Debug, PartialEq, Eq, PartialOrd, Ord)]
@@ -394,7 +448,7 @@ fn gen_c04(thorough: bool) -> Vec<Scenario> {
         Drop,
     }
     let alpha = [L::Tell, L::Stop, L::Kill, L::Drop, L::Ask];
-    let mut progs: Vec<Vec<L>> = seqs(&alpha, 2);
+    let mut progs: Vec<Vec<L>> = seqs(&alpha, if xl { 3 } else { 2 });
     progs.retain(|p| match p.iter().position(|o| *o == L::Drop) {
         Some(i) => i + 1 == p.len(),
         None => true,
@@ -418,6 +472,9 @@ fn gen_c04(thorough: bool) -> Vec<Scenario> {
                     for (i, p1) in progs.iter().enumerate() {
                         for p2 in progs.iter().skip(i) {
                             if !thorough && p1.len() + p2.len() > 3 {
+                                continue;
+                            }
+                            if p1.len() + p2.len() > 4 {
                                 continue;
                             }
                             let has_msg = p1.iter().chain(p2.iter()).any(|o| matches!(o, L::Tell | L::Ask));
@@ -463,7 +520,10 @@ fn gen_c04(thorough: bool) -> Vec<Scenario> {
 
 // ------------------------------------------------------------------ C06: kill
 
-fn gen_c06(thorough: bool) -> Vec<Scenario> {
+fn gen_c06(lvl: u8) -> Vec<Scenario> {
+    let thorough = lvl >= 1;
+    let xl = lvl >= 2;
+    let _ = xl;
     let mut out = Vec::new();
     let mut n = 0;
     let seeds: Vec<u64> = if thorough { (0..8).collect() } else { (0..4).collect() };
@@ -618,7 +678,10 @@ fn gen_c06(thorough: bool) -> Vec<Scenario> {
 
 // ------------------------------------------------------------------ C07: termination and references
 
-fn gen_c07(thorough: bool) -> Vec<Scenario> {
+fn gen_c07(lvl: u8) -> Vec<Scenario> {
+    let thorough = lvl >= 1;
+    let xl = lvl >= 2;
+    let _ = xl;
     let mut out = Vec::new();
     let mut n = 0;
     // handle histories over slots 0..2 of one or two clients
@@ -720,6 +783,43 @@ fn gen_c07(thorough: bool) -> Vec<Scenario> {
             }
         }
     }
+    // every reference disappears while on_start is still running
+    for hist in seqs(&alpha, 2) {
+        for other in [1, 2] {
+            let mut ids = Ids(0);
+            let mut steps = Vec::new();
+            for h in &hist {
+                steps.extend(to_steps(h, &mut ids));
+            }
+            steps.push(Step::DropH(0));
+            steps.push(Step::Fuse);
+            steps.push(Step::DropH(1));
+            steps.push(Step::Fuse);
+            steps.push(Step::DropH(2));
+            let c0 = Program::new(vec![(0, 0)], steps);
+            let c1 = Program::new(vec![(0, 0)], if other == 1 { vec![Step::DropH(0)] } else { vec![Step::Downgrade { from: 0, to: 1 }, Step::Fuse, Step::DropH(0)] });
+            let mut a = ActorSpec::plain(4);
+            a.on_start = HookSpec { entry_yield: true, steps: vec![Step::Yield], out: Outcome::Ok, free: false };
+            n += 1;
+            out.push(scn(format!("c07-{n}-gated-start-o{other}-{hist:?}"), vec![a], vec![c0, c1], &["probe"]));
+        }
+    }
+    // a stop() whose caller gives up while it waits for a slot, followed later by a stop() that is accepted
+    for cap in [1usize, 2] {
+        let mut ids = Ids(0);
+        let a = ActorSpec::plain(cap);
+        let mut slow = MsgSpec::m1(ids.next()).steps(vec![Step::Sleep(20)]);
+        slow.entry_yield = false;
+        let mut tells = vec![send(SendKind::Tell, 0, slow)];
+        for _ in 0..cap {
+            tells.push(send(SendKind::Tell, 0, MsgSpec::quick(ids.next())));
+        }
+        let c0 = Program { slots: vec![(0, 0)], steps: tells, auto_yield: false, free: false };
+        let c1 = Program::new(vec![(0, 0)], vec![Step::Sleep(1), Step::StopCancel { slot: 0, ms: 10 }, Step::Sleep(30), Step::Stop(0)]);
+        let c2 = Program::new(vec![(0, 0)], vec![Step::Sleep(50), Step::CloneH { from: 0, to: 1 }, Step::Stop(1)]);
+        n += 1;
+        out.push(scn(format!("c07-{n}-cancelled-stop-cap{cap}"), vec![a], vec![c0, c1, c2], &["probe"]));
+    }
     // stop() requested while the mailbox is full: the work accepted before it is still finished
     for cap in [1usize, 2] {
         for ri in 0..runs.len() {
@@ -751,7 +851,10 @@ fn gen_c07(thorough: bool) -> Vec<Scenario> {
 
 // ------------------------------------------------------------------ C08: on_run
 
-fn gen_c08(thorough: bool) -> Vec<Scenario> {
+fn gen_c08(lvl: u8) -> Vec<Scenario> {
+    let thorough = lvl >= 1;
+    let xl = lvl >= 2;
+    let _ = xl;
     let mut out = Vec::new();
     let mut n = 0;
     let bodies: Vec<Vec<Step>> = vec![
@@ -815,6 +918,33 @@ fn gen_c08(thorough: bool) -> Vec<Scenario> {
             }
         }
     }
+    // messages (and a kill) already queued when on_start completes: the very first poll of on_run must wait for them
+    for (si, script) in scripts.iter().enumerate().filter(|(si, _)| si % 3 == 0) {
+        for with_kill in [false, true] {
+            let mut ids = Ids(0);
+            let mut a = ActorSpec::plain(3);
+            a.on_start = gated(Outcome::Ok);
+            a.on_run = script.clone();
+            let mut steps = vec![send(SendKind::Tell, 0, MsgSpec::quick(ids.next())), send(SendKind::Tell, 0, MsgSpec::quick(ids.next()))];
+            if with_kill {
+                steps.push(Step::Kill(0));
+            }
+            n += 1;
+            out.push(scn(format!("c08-{n}-queued-before-loop-script{si}-kill{with_kill}"), vec![a], vec![Program::new(vec![(0, 0)], steps)], &[]));
+        }
+    }
+    // on_run asks for its own actor to be killed and fails in the same breath: the failure path decides (on_stop(false))
+    {
+        let mut ids = Ids(0);
+        let mut a = ActorSpec::plain(2);
+        a.on_run = vec![
+            HookSpec { entry_yield: false, steps: vec![Step::Mark(1), Step::Yield], out: Outcome::OkTrue, free: false },
+            HookSpec { entry_yield: false, steps: vec![Step::Mark(2), Step::Kill(SELF_SLOT)], out: Outcome::Err(8), free: false },
+        ];
+        let c0 = Program::new(vec![(0, 0)], vec![send(SendKind::Tell, 0, MsgSpec::quick(ids.next()))]);
+        n += 1;
+        out.push(scn(format!("c08-{n}-selfkill-then-err"), vec![a], vec![c0], &["selfkill_in_on_run"]));
+    }
     // free-running variants: wake-ups are delivered by tokio itself, so a message and the event on_run is
     // waiting for can become ready in the same poll of the actor task
     for cap in [1usize, 2] {
@@ -863,10 +993,13 @@ fn gen_c08(thorough: bool) -> Vec<Scenario> {
 
 // ------------------------------------------------------------------ C09: capacity
 
-fn gen_c09(thorough: bool) -> Vec<Scenario> {
+fn gen_c09(lvl: u8) -> Vec<Scenario> {
+    let thorough = lvl >= 1;
+    let xl = lvl >= 2;
     let mut out = Vec::new();
     let mut n = 0;
-    for cap in [1usize, 2, 3] {
+    let caps: Vec<usize> = if xl { vec![1, 2, 3, 4, 5] } else { vec![1, 2, 3] };
+    for cap in caps {
         for parked in [0, 1] {
             for nclients in [1usize, 2, 3] {
                 for with_stop in [false, true] {
@@ -923,10 +1056,13 @@ fn gen_c09(thorough: bool) -> Vec<Scenario> {
 
 // ------------------------------------------------------------------ C10: timeouts
 
-fn gen_c10(thorough: bool) -> Vec<Scenario> {
+fn gen_c10(lvl: u8) -> Vec<Scenario> {
+    let thorough = lvl >= 1;
+    let xl = lvl >= 2;
+    let _ = xl;
     let mut out = Vec::new();
     let mut n = 0;
-    let ts = [0u32, 10, 20];
+    let ts: Vec<u32> = if xl { vec![0, 10, 20, 30] } else { vec![0, 10, 20] };
     // natural completion of the handler relative to the deadline
     #[derive(Clone, Copy, Debug)]
     enum Nat {
@@ -1024,7 +1160,10 @@ fn gen_c10(thorough: bool) -> Vec<Scenario> {
 
 // ------------------------------------------------------------------ C11: identity, is_alive, upgrade
 
-fn gen_c11(thorough: bool) -> Vec<Scenario> {
+fn gen_c11(lvl: u8) -> Vec<Scenario> {
+    let thorough = lvl >= 1;
+    let xl = lvl >= 2;
+    let _ = xl;
     let mut out = Vec::new();
     let mut n = 0;
     // derivation chains
@@ -1039,7 +1178,7 @@ fn gen_c11(thorough: bool) -> Vec<Scenario> {
         BoxClone,
     }
     let alpha = [D::Clone, D::DownUp, D::EraseTell, D::EraseAsk, D::EraseCtl, D::WeakEraseUp, D::BoxClone];
-    for chain in seqs(&alpha, if thorough { 3 } else { 2 }) {
+    for chain in seqs(&alpha, if xl { 4 } else if thorough { 3 } else { 2 }) {
         // slot `cur` always holds the newest strong-ish handle
         let mut steps: Vec<Step> = vec![Step::Ident(0)];
         let mut cur: u8 = 0;
@@ -1156,6 +1295,25 @@ fn gen_c11(thorough: bool) -> Vec<Scenario> {
             out.push(scn(format!("c11-{n}-{cause:?}-probe{probe}"), vec![a], vec![c0, c1], &[]));
         }
     }
+    // both spawn entry points in one process: spawn() (default capacity) and spawn_with_mailbox_capacity()
+    for at_start in [true, false] {
+        let mut a1 = ActorSpec::plain(1);
+        a1.cap = None;
+        let a2 = ActorSpec::plain(2);
+        let mut a3 = ActorSpec::plain(1);
+        a3.cap = None;
+        let mut actors = vec![a1, a2, a3];
+        let clients = if at_start {
+            vec![Program::new(vec![(0, 0), (1, 1), (2, 2)], vec![Step::Ident(0), Step::Ident(1), Step::Ident(2)])]
+        } else {
+            for a in actors.iter_mut() {
+                a.at_start = false;
+            }
+            (0..3).map(|j| Program::new(vec![], vec![Step::Spawn { actor: j, to: 0 }, Step::Ident(0)])).collect()
+        };
+        n += 1;
+        out.push(scn(format!("c11-{n}-both-spawn-entry-points-atstart{at_start}"), actors, clients, &["fresh_process"]));
+    }
     // actors spawned by concurrent clients
     {
         let mut a1 = ActorSpec::plain(1);
@@ -1171,7 +1329,10 @@ fn gen_c11(thorough: bool) -> Vec<Scenario> {
 
 // ------------------------------------------------------------------ C13: dead letters
 
-fn gen_c13(thorough: bool) -> Vec<Scenario> {
+fn gen_c13(lvl: u8) -> Vec<Scenario> {
+    let thorough = lvl >= 1;
+    let xl = lvl >= 2;
+    let _ = xl;
     let mut out = Vec::new();
     let mut n = 0;
     #[derive(Clone, Copy, Debug)]
@@ -1361,7 +1522,10 @@ fn chain(n: usize, kinds: &[EdgeKind], name: String) -> Scenario {
     s
 }
 
-fn gen_c14(thorough: bool) -> Vec<Scenario> {
+fn gen_c14(lvl: u8) -> Vec<Scenario> {
+    let thorough = lvl >= 1;
+    let xl = lvl >= 2;
+    let _ = xl;
     let mut out = Vec::new();
     let mut n = 0;
     let hooks = [EdgeHook::Handler, EdgeHook::OnStart, EdgeHook::OnRun, EdgeHook::OnStop, EdgeHook::OnStopAfterRunErr];
@@ -1409,9 +1573,12 @@ fn gen_c14(thorough: bool) -> Vec<Scenario> {
     out
 }
 
-fn gen_c15(thorough: bool) -> Vec<Scenario> {
+fn gen_c15(lvl: u8) -> Vec<Scenario> {
+    let thorough = lvl >= 1;
+    let xl = lvl >= 2;
+    let _ = xl;
     // the rings: in most schedules the asks do not all overlap, and then nobody may panic
-    let mut out = gen_c14(thorough);
+    let mut out = gen_c14(lvl);
     for s in out.iter_mut() {
         s.name = s.name.replace("c14-", "c15-");
     }
@@ -1543,7 +1710,10 @@ fn gen_c15(thorough: bool) -> Vec<Scenario> {
 
 // ------------------------------------------------------------------ C20: metrics
 
-fn gen_c20(thorough: bool) -> Vec<Scenario> {
+fn gen_c20(lvl: u8) -> Vec<Scenario> {
+    let thorough = lvl >= 1;
+    let xl = lvl >= 2;
+    let _ = xl;
     let mut out = Vec::new();
     let mut n = 0;
     #[derive(Clone, Copy, Debug, PartialEq)]
@@ -1764,7 +1934,8 @@ fn erase_program(p: &Program, style: Style) -> Program {
     Program { slots: p.slots.clone(), steps, auto_yield: p.auto_yield, free: p.free }
 }
 
-pub fn gen_c16(thorough: bool) -> Vec<(Scenario, Vec<Scenario>)> {
+pub fn gen_c16(lvl: u8) -> Vec<(Scenario, Vec<Scenario>)> {
+    let thorough = lvl >= 1;
     let mut groups = Vec::new();
     let mut n = 0;
     #[derive(Clone, Copy, Debug, PartialEq)]
@@ -1894,7 +2065,10 @@ pub fn gen_c16(thorough: bool) -> Vec<(Scenario, Vec<Scenario>)> {
 
 /// A fixed list of cycle-free scenarios drawn from the other properties' grammars; every build of the harness
 /// (one per rsactor feature set) explores them and reports a signature of all (schedule, observable trace) pairs.
-fn gen_c18(thorough: bool) -> Vec<Scenario> {
+fn gen_c18(lvl: u8) -> Vec<Scenario> {
+    let thorough = lvl >= 1;
+    let xl = lvl >= 2;
+    let _ = xl;
     let _ = thorough;
     let mut out: Vec<Scenario> = Vec::new();
     let mut take = |v: Vec<Scenario>, every: usize| {
@@ -1904,15 +2078,15 @@ fn gen_c18(thorough: bool) -> Vec<Scenario> {
             }
         }
     };
-    take(gen_c01(false), 60);
-    take(gen_c03(false), 8);
-    take(gen_c04(false), 25);
-    take(gen_c06(false), 8);
-    take(gen_c07(false), 90);
-    take(gen_c08(false), 4);
-    take(gen_c10(false), 5);
-    take(gen_c11(false), 2);
-    take(gen_c13(false), 12);
+    take(gen_c01(0), 60);
+    take(gen_c03(0), 8);
+    take(gen_c04(0), 25);
+    take(gen_c06(0), 8);
+    take(gen_c07(0), 90);
+    take(gen_c08(0), 4);
+    take(gen_c10(0), 5);
+    take(gen_c11(0), 2);
+    take(gen_c13(0), 12);
     // hooks that ask other actors, but never back (exercises the wait-for bookkeeping without any cycle)
     for hook in [EdgeHook::Handler, EdgeHook::OnStart, EdgeHook::OnRun, EdgeHook::OnStop, EdgeHook::OnStopAfterRunErr] {
         for kind in [EdgeKind::Ask, EdgeKind::AskTO, EdgeKind::Erased] {
@@ -1999,7 +2173,10 @@ fn gen_c18(thorough: bool) -> Vec<Scenario> {
 
 // ------------------------------------------------------------------ C12: a failing actor fails alone
 
-fn gen_c12(thorough: bool) -> Vec<Scenario> {
+fn gen_c12(lvl: u8) -> Vec<Scenario> {
+    let thorough = lvl >= 1;
+    let xl = lvl >= 2;
+    let _ = xl;
     let mut out = Vec::new();
     let mut n = 0;
     #[derive(Clone, Copy, Debug, PartialEq)]
@@ -2033,7 +2210,8 @@ fn gen_c12(thorough: bool) -> Vec<Scenario> {
     for crash in crashes {
         for traffic in 0..(if thorough { 3 } else { 2 }) {
             let mut ids = Ids(0);
-            let mut v = ActorSpec::plain(3);
+            // traffic pattern 1: the victim's mailbox holds one message only, so senders are parked on it when it dies
+            let mut v = ActorSpec::plain(if traffic == 1 { 1 } else { 3 });
             let p = ActorSpec::plain(3);
             let q = ActorSpec::plain(3);
             let mut extra = ActorSpec::plain(2);
@@ -2117,8 +2295,11 @@ fn gen_c12(thorough: bool) -> Vec<Scenario> {
 
 // ------------------------------------------------------------------ C19 (runtime half): on_tell_result
 
-fn gen_c19(thorough: bool) -> Vec<Scenario> {
-    let mut out: Vec<Scenario> = gen_c01(thorough).into_iter().enumerate().filter(|(i, _)| i % 3 == 0).map(|(_, s)| s).collect();
+fn gen_c19(lvl: u8) -> Vec<Scenario> {
+    let thorough = lvl >= 1;
+    let xl = lvl >= 2;
+    let _ = xl;
+    let mut out: Vec<Scenario> = gen_c01(lvl.min(1)).into_iter().enumerate().filter(|(i, _)| i % 3 == 0).map(|(_, s)| s).collect();
     for s in out.iter_mut() {
         s.name = s.name.replace("c01-", "c19-");
     }
